@@ -1165,7 +1165,7 @@ func TestVerifC34(t *testing.T) {
 	r.Set("term_changes", st.termEnds)
 	r.Set("unbond_expiries", st.unbondExpired)
 	if !stopAll || r.Violations() == 0 {
-		r.Sanity(st.txOK > 0 && st.txFail > 0 && st.unstakePaid > 0 && st.unstakeCreated > 0 && st.slashed > 0 && st.regs > 0 && st.termEnds > 0,
+		r.Sanity(st.txOK > 0 && st.txFail > 0 && st.unstakePaid > 0 && st.unstakeCreated > 0 && st.slashed > 0 && st.regs > 0 && st.termEnds > 0 && st.claimPaid > 0 && st.unbondExpired > 0,
 			"vacuity: txOK=%d txFail=%d unstakePaid=%d unstakeCreated=%d claimPaid=%d slashed=%d regs=%d termEnds=%d",
 			st.txOK, st.txFail, st.unstakePaid, st.unstakeCreated, st.claimPaid, st.slashed, st.regs, st.termEnds)
 	}
